@@ -62,7 +62,10 @@ def element(node: AbbreviationNode, index: int, items: list, state: HTMLWalkStat
                     push_tokens(node.value, state)
                     if inner_format:
                         out.level -= 1
-                        out.push_newline(out.level)
+                        if not node.children:
+                            # the line break that puts the closing tag on its own line;
+                            # with children, the last formatted child emits it
+                            out.push_newline(out.level)
 
                 _next(node.children, walk_next)
 
